@@ -5,8 +5,8 @@
    (Sres = 0 when it does not get that far). Relative to the FIRST frame header of the stream
    (the reading of the property) the bound is refuted for decoders that accept a second frame
    header. Property theorems only. *)
-From V Require Import Common.Base Parsers.PrsOutcome Parsers.PrsJls Parsers.PrsJpeg Parsers.PrsJ2k
-  Parsers.PrsProofsBase Parsers.PrsProofsJls Parsers.PrsProofsJpeg Parsers.PrsProofsJ2k.
+From V Require Import Common.Base Parsers.PrsOutcome Parsers.PrsJls Parsers.PrsJpeg Parsers.PrsBaseline Parsers.PrsJ2k
+  Parsers.PrsProofsBase Parsers.PrsProofsJls Parsers.PrsProofsJpeg Parsers.PrsProofsBaseline Parsers.PrsProofsJ2k.
 
 (* ---- termination ---- *)
 Theorem C09_jls_lossless_terminates : forall g bs, bytes bs -> fst (jlsl_decode g (fuel_of bs) bs) <> OutOfFuel.
@@ -21,6 +21,9 @@ Print Assumptions C09_jpeg_lossless_terminates.
 Theorem C09_jpeg_sv1_terminates : forall g bs, bytes bs -> fst (sv1_decode g (fuel_of bs) bs) <> OutOfFuel.
 Proof. exact sv1_decode_fuel. Qed.
 Print Assumptions C09_jpeg_sv1_terminates.
+Theorem C09_jpeg_baseline_terminates : forall g bs, bytes bs -> fst (bl_decode g (fuel_of bs) bs) <> OutOfFuel.
+Proof. exact bl_decode_fuel. Qed.
+Print Assumptions C09_jpeg_baseline_terminates.
 (* includes skipSegment with length 0 or 1, which moves the offset backwards *)
 Theorem C09_j2k_main_header_terminates : forall g d, bytes d -> fst (k_main_header g (fuel_of d) d) <> OutOfFuel.
 Proof. exact k_main_header_fuel. Qed.
